@@ -26,7 +26,7 @@ META = {
         "per line, every mother, every subset S of the decaying particles with and without the table-less leaf, S given in "
         "turn as list/tuple/set); (2) a deterministic family of larger sets (3-5 daughters per line, up to 6 lines, depth "
         "4, repeated daughters, empty Decay blocks, aliases; all subsets S when <= 5 particles have tables, each in all "
-        "three container types); thorough tier adds the scope (3,2,2), (5,1,2), (5,2,1), a VERIF_SEED random supplement and "
+        "three container types); thorough tier adds the scopes (3,2,2), (5,1,2), (5,2,1) (top mother), a VERIF_SEED random supplement and "
         "every mother of the shipped DECAY_LHCB.DEC whose unfolding has < 100000 nodes. Not a proof: shapes beyond the "
         "bounds are not covered."),
     "assumptions": [
@@ -39,7 +39,8 @@ META = {
 }
 
 QUICK_SCOPES = [(1, 2, 4), (2, 4, 1), (2, 1, 4), (2, 3, 2), (2, 2, 3), (3, 1, 3), (3, 3, 1), (4, 1, 2), (4, 2, 1)]
-THOROUGH_SCOPES = QUICK_SCOPES + [(3, 2, 2), (5, 1, 2), (5, 2, 1)]
+# thorough only, evaluated for the top mother (their lower mothers are top mothers of the scopes above, up to renaming)
+TOP_ONLY_SCOPES = [(3, 2, 2), (5, 1, 2), (5, 2, 1)]
 BATCH = 24
 CONTAINERS = ("list", "tuple", "set")
 MAX_FAIL = 8
@@ -105,13 +106,13 @@ def _stable_sets(decaying, leaves, rng=None, full_limit=5):
 
 
 def _gen_task(task):
-    """task = (mode, [(idx, blocks, aliases), ...]) ; mode 'scope' rotates the container, 'family' uses all three"""
+    """task = (mode, [(idx, blocks, aliases, top_only), ...]) ; mode 'scope' rotates the container, 'family' uses all three"""
     from decaylanguage import DecFileParser
 
     mode, items = task
     res = dict(evals=0, keys=set(), count=0, failures=[], errors=[], samples=[], notfound=0)
     tss = []
-    for k, (idx, blocks, aliases) in enumerate(items):
+    for k, (idx, blocks, aliases, _top_only) in enumerate(items):
         tss.append(cs.with_prefix(cs.decorate(blocks, aliases, salt=idx), f"s{k}_"))
     text = cs.render(tss)
     try:
@@ -122,7 +123,7 @@ def _gen_task(task):
         res["errors"].append(f"generated text not parsed: {ex!r}: {text[:300]}")
         return res
     snapshot = cs.freeze(T)
-    for k, (idx, blocks, aliases) in enumerate(items):
+    for k, (idx, blocks, aliases, top_only) in enumerate(items):
         pre = f"s{k}_"
         ts = tss[k]
         Tg = cs.tables_of_model(ts)
@@ -137,7 +138,7 @@ def _gen_task(task):
         ssets = _stable_sets(decaying, leaves, rng)
         # the generator's own (unprefixed) view, used only to count distinct cases
         Tu = cs.tables_of_model(cs.decorate(blocks, aliases, salt=0))
-        for mi, m in enumerate(decaying):
+        for mi, m in enumerate(decaying[:1] if top_only else decaying):
             mu = m[len(pre):]
             reach_u = cs.reachable(Tu, mu)
             for si, S in enumerate(ssets):
@@ -358,18 +359,18 @@ def _run_lhcb(size_bound, t0):
 
 
 def _family_items(tier, seed):
-    items = [(i, b, a) for i, (b, a) in enumerate(cs.wide_family())]
+    items = [(i, b, a, False) for i, (b, a) in enumerate(cs.wide_family())]
     rng = cs.rng_for(0, "C09.family")          # fixed: identical in every run
-    n_fixed = 200 if tier == "quick" else 1500
+    n_fixed = 200 if tier == "quick" else 1000
     for _ in range(n_fixed):
         b, a = cs.random_blocks(rng, max_count=10 ** 9, max_size=4000)
-        items.append((len(items), b, a))
+        items.append((len(items), b, a, False))
     n_seeded = 0
     if tier == "thorough":
         rng = cs.rng_for(seed, "C09.supplement")
-        for _ in range(2500):
+        for _ in range(1500):
             b, a = cs.random_blocks(rng, max_count=10 ** 9, max_size=4000)
-            items.append((len(items), b, a))
+            items.append((len(items), b, a, False))
             n_seeded += 1
     return items, n_fixed, n_seeded
 
@@ -378,24 +379,27 @@ def run(tier="quick", seed=0):
     out = []
     # (1) exhaustive small scopes
     t0 = time.time()
-    scopes = QUICK_SCOPES if tier == "quick" else THOROUGH_SCOPES
-    items = [(i, b, []) for i, b in enumerate(cs.enum_scopes(scopes))]
+    scopes = QUICK_SCOPES + (TOP_ONLY_SCOPES if tier == "thorough" else [])
+    n_all = sum(1 for _ in cs.enum_scopes(QUICK_SCOPES))
+    items = [(i, b, [], i >= n_all) for i, b in enumerate(cs.enum_scopes(scopes))]      # enum_scopes keeps the scope order
     if tier == "thorough" and seed:
         cs.rng_for(seed, "C09.order").shuffle(items)
-    by_idx = {i: (b, a) for i, b, a in items}
+    by_idx = {i: (b, a) for i, b, a, _t in items}
     results = cs.pmap(_gen_task, [("scope", c) for c in cs.chunks(items, BATCH)])
     out.append(_collect(
         results, lambda i: by_idx[i], "C09.chain.small_scopes",
         f"all {len(items)} table sets of the scopes {cs.scope_text(scopes)} (K ranked particles P0<..<P(K-1) each with a Decay "
         "block of 0..L lines, a line = sequence of 1..W daughters drawn with repetition from the lower-ranked particles and the "
-        "table-less leaf x, every particle reachable from the top one); every particle as mother; every subset S of the K "
+        "table-less leaf x, every particle reachable from the top one); every particle as mother" +
+        (f" (top particle only for the sets first met in {cs.scope_text(TOP_ONLY_SCOPES)})" if tier == "thorough" else "") +
+        "; every subset S of the K "
         "particles (including M itself and M's daughters), plus {x} and everything+{x}; S passed as list / tuple / set in "
         "rotation; 2 not-found probes per set; stored tables compared before/after",
         RULE, True, t0))
     # (2) larger sampled family
     t0 = time.time()
     items, n_fixed, n_seeded = _family_items(tier, seed)
-    by_idx2 = {i: (b, a) for i, b, a in items}
+    by_idx2 = {i: (b, a) for i, b, a, _t in items}
     results = cs.pmap(_gen_task, [("family", c) for c in cs.chunks(items, 8)])
     out.append(_collect(
         results, lambda i: by_idx2[i], "C09.chain.larger_family",
